@@ -903,6 +903,7 @@ mod expression_parser {
       let operator = match parser.peek().1 {
         TokenContent::Operator(TokenOp::Plus) => expr::BinaryOperator::PLUS,
         TokenContent::Operator(TokenOp::Minus) => expr::BinaryOperator::MINUS,
+        TokenContent::Operator(TokenOp::ColonColon) => expr::BinaryOperator::CONCAT,
         _ => break,
       };
       let concrete_comments = parser.consume();
@@ -926,7 +927,7 @@ mod expression_parser {
   }
 
   fn parse_factor(parser: &mut super::SourceParser) -> expr::E<()> {
-    let e = parse_concat(parser);
+    let e = parse_unary_expression(parser);
     parse_factor_with_start(parser, e)
   }
 
@@ -941,33 +942,6 @@ mod expression_parser {
       let concrete_comments = parser.consume();
       let operator_preceding_comments =
         parser.comments_store.create_comment_reference(concrete_comments);
-      let e2 = parse_concat(parser);
-      let loc = e.loc().union(&e2.loc());
-      e = expr::E::Binary(expr::Binary {
-        common: expr::ExpressionCommon {
-          loc,
-          associated_comments: parser.comments_store.create_comment_reference(Vec::new()),
-          type_: (),
-        },
-        operator_preceding_comments,
-        operator,
-        e1: Box::new(e),
-        e2: Box::new(e2),
-      })
-    }
-    e
-  }
-
-  fn parse_concat(parser: &mut super::SourceParser) -> expr::E<()> {
-    let e = parse_unary_expression(parser);
-    parse_concat_with_start(parser, e)
-  }
-
-  fn parse_concat_with_start(parser: &mut super::SourceParser, mut e: expr::E<()>) -> expr::E<()> {
-    while let TokenContent::Operator(TokenOp::ColonColon) = parser.peek().1 {
-      let concrete_comments = parser.consume();
-      let operator_preceding_comments =
-        parser.comments_store.create_comment_reference(concrete_comments);
       let e2 = parse_unary_expression(parser);
       let loc = e.loc().union(&e2.loc());
       e = expr::E::Binary(expr::Binary {
@@ -977,7 +951,7 @@ mod expression_parser {
           type_: (),
         },
         operator_preceding_comments,
-        operator: expr::BinaryOperator::CONCAT,
+        operator,
         e1: Box::new(e),
         e2: Box::new(e2),
       })
@@ -1099,7 +1073,6 @@ mod expression_parser {
     base: expr::E<()>,
   ) -> expr::E<()> {
     let e = parse_function_call_or_field_access_with_start(parser, base);
-    let e = parse_concat_with_start(parser, e);
     let e = parse_factor_with_start(parser, e);
     let e = parse_term_with_start(parser, e);
     let e = parse_comparison_with_start(parser, e);
